@@ -6,13 +6,15 @@ from .common import *
 from . import c04
 
 EXPLANATION = (
-    "Static clauses: (R1) decision table 'half-move clock is reset iff the move is a pawn move or a capture' per move "
-    "kind, read off the Ok paths of apply (which of reset/increment is reached under which tests of the moved piece "
-    "and of the capture); (R2) the constant guarding the move-count draw in game_ending is 100 half-moves; (R3) each "
-    "apply advances and each undo retreats both counters exactly once (imports C04.R1); (R4) narrow (u8) counters "
-    "that are incremented per ply need a bound: the full-move counter has none, the half-move clock is bounded only "
-    "if every game loop stops on a reported draw. Equality of the clock with 'plies since the last capture or pawn "
-    "move' along real games is NOT decided beyond these necessary conditions.")
+    "Static clauses: (R1) decision table 'half-move clock is reset iff the move is a pawn move or a capture' per move kind, read off "
+    'the Ok paths of apply (which of reset/increment is reached under which tests of the moved piece and of the capture); (R2) the '
+    'constant guarding the move-count draw in game_ending is 100 half-moves; (R3) each apply advances and each undo retreats both '
+    'counters exactly once (imports C04.R1); (R4) narrow (u8) counters that are incremented per ply need a bound: the full-move counter'
+    " has none, the half-move clock is bounded only if every game loop stops on a reported draw. Equality of the clock with 'plies "
+    "since the last capture or pawn move' along real games is NOT decided beyond these necessary conditions. (R5) no verdict remembered"
+    ' in the generator (= C02.R4); (R6) Game::check_game_over_for_current_turn returns evaluate::game_ending(board, generator, '
+    'board.turn()) computed on the call.'
+)
 ASSUMPTIONS = [
     "rustc MIR construction and the chessfacts extractor are faithful",
     "the promotion kind is only generated for pawns (its own apply rejects anything else)",
